@@ -624,7 +624,24 @@ def r3_counters(ctx):
                     got.append(metric + "?")
             else:
                 got.append(metric)
-        if okall and sorted(got) == sorted(want):
+        # every normal return passes the counting step (no early exit that
+        # performs -- or skips -- the operation uncounted)
+        from ..cfg import ENTRY
+        tops = set()
+        for c in calls:
+            t_ = enclosing_stmt(c)
+            while getattr(t_, "_parent", None) is not None and t_ not in f.body:
+                t_ = t_._parent
+            tops.add(t_)
+        skipped = [r for r in pat.returns(f) if tops and
+                   r in g.reachable(ENTRY, avoid=tops)]
+        if skipped and okall and sorted(got) == sorted(want):
+            ctx.bad("C15.R3", f, skipped[0], "Payload.%s can return without "
+                    "passing its counting step (`%s` is reachable around it): "
+                    "operations the kernel executes on that path are not "
+                    "counted" % (mname, text(skipped[0])),
+                    text_="Payload.%s counters" % mname)
+        elif okall and sorted(got) == sorted(want):
             ctx.ok("C15.R3", f, f.node, "counts %s under a collecting guard"
                    % want, text_="Payload.%s counters" % mname)
         else:
